@@ -199,4 +199,29 @@ theorem arguments_clone_eq (style : Style) :
         system_Clone_for_Arguments_clone [.host (.args style)] = (.val (.host (.args style)), []) := by
   simp [system_Clone_for_Arguments_clone]
 
+/-- `<unit as Unit>::abbreviation() / singular() / plural()` (src/unit.rs) are the three label literals of the unit's
+    declaration line, each its own -/
+theorem unit_labels_eq (a sg pl : Bytes) :
+    run (envConst c_abbreviation (.str a)) unit_Unit_for_unit_abbreviation [] = (.val (.str a), []) ∧
+    run (envConst c_singular (.str sg)) unit_Unit_for_unit_singular [] = (.val (.str sg), []) ∧
+    run (envConst c_plural (.str pl)) unit_Unit_for_unit_plural [] = (.val (.str pl), []) := by
+  refine ⟨?_, ?_, ?_⟩ <;>
+    simp [unit_Unit_for_unit_abbreviation, unit_Unit_for_unit_singular, unit_Unit_for_unit_plural, envConst, envNone,
+      c_abbreviation, c_singular, c_plural]
+
+theorem unit_label_names_distinct :
+    c_abbreviation ≠ c_singular ∧ c_abbreviation ≠ c_plural ∧ c_singular ≠ c_plural := by decide
+
+/-- `Clone for QuantityArguments` clones both fields into the same struct -/
+theorem quantity_arguments_clone_eq {V : Type} (style : Style) (x : V) :
+    run ({ envGlue (V := V) id (fun _ => none) (fun _ => false) ⟨[], [], []⟩ with
+            ext := fun c args => if c = c_Self_arguments_quantity then
+                (match args with
+                 | [.host (.args st), .host (.quant y)] => .host (.qa st y)
+                 | _ => .bad) else .bad
+            meth := fun m args => if m = m_clone then (match args with | [v] => v | _ => .bad) else .bad } : Env (FH V))
+        system_Clone_for_QuantityArguments_clone [.host (.qa style x)] = (.val (.host (.qa style x)), []) := by
+  simp [system_Clone_for_QuantityArguments_clone, envGlue, envFmt, c_Self_arguments_quantity, m_clone, fld_arguments,
+    fld_quantity]
+
 end Uom.BodyEq.FmtGlue
